@@ -38,6 +38,9 @@ type GevDistribution struct {
 /* -------------------------------------------------------------------------- */
 
 func NewGevDistribution(mu, sigma, xi Scalar) (*GevDistribution, error) {
+  if math.IsNaN(mu.GetFloat64()) || math.IsNaN(sigma.GetFloat64()) || math.IsNaN(xi.GetFloat64()) {
+    return nil, fmt.Errorf("invalid parameters")
+  }
   if sigma.GetFloat64() <= 0.0 {
     return nil, fmt.Errorf("invalid value for parameter sigma: %f", sigma.GetFloat64())
   }
